@@ -486,6 +486,11 @@ Contract(
         V.is_int(L.field(L.field0(L.v0("self"), "_queue"), "unfinished_tasks")),
         Val.i(L.field(L.field0(L.v0("self"), "_queue"), "unfinished_tasks")) >= Val.llen(L.ghost("q_items"))), "drain",
         mutates=(("unfinished_tasks", lambda L: L.field0(L.v0("self"), "_queue")),))},
+    # C11 (stop() always returns): the wait for the running tasks happens inside the critical section that emptied the
+    # queue - enqueue() takes the same lock, so nothing can be queued between the drain and the wait; a task queued there
+    # on a stopped pool has no worker, and the wait would never end
+    asserts=[("waits_inside_the_critical_section_that_drained", POOL + ".join",
+              lambda pc, L: z3.BoolVal(bool(pc.st is not None and pc.st.locks)), ("C11",))],
     modifies=_POOLW + [Field(lambda c: c.old(c.a.self, "_queue"), "unfinished_tasks")] +
              [Ghost(g) for g in ("q_items", "q_gets", "q_dones")],
     props=("C11",),
